@@ -291,6 +291,13 @@ std::set<std::string> MakeKeywordsMap() {
 
 std::set<std::string> kKeywords = MakeKeywordsMap();
 
+std::string EscapeKeyword(const std::string& name) {
+  if (kKeywords.count(name) > 0) {
+    return name + "_";
+  }
+  return name;
+}
+
 std::string FieldName(const google::protobuf::FieldDescriptor* field) {
   std::string result = ToLower(field->name());
   if (kKeywords.count(result) > 0) {
